@@ -520,6 +520,9 @@ def run(ctx):
             [('shared', i) for i in range(400 if q else 3000)] + [('unshared', i) for i in range(100 if q else 800)]
     ctx.rng.shuffle(items)
     check.pmap(ctx, 'props.c17', 'one', items, case_timeout=240 if q else 900)
+
+    # correspondence with the Lean bookkeeping model (driver command), see props/corr_models.py
+    check.pmap(ctx, 'props.corr_models', 'one_cache', list(range(16 if q else 120)), case_timeout=300)
     # the pool comparison runs in this process (a pool inside a pool worker is not allowed), one after the other
     pg = C.import_phasegen()
     for i, c in enumerate(pool_cases(q, None)):
